@@ -125,7 +125,8 @@ class TLCResult:
 
 
 def run_tlc(d, module, cfg, workers=NCPU, timeout=3600, heap="8g", extra=None, stdout_file=None, deque=False):
-    cmd = java_cmd(heap, deque=deque) + ["-workers", str(workers), "-metadir", os.path.join(d, "meta-%s" % cfg.replace(".cfg", "")),
+    # single-worker runs (trace validation: many JVMs side by side) must not each start one GC thread per core
+    cmd = java_cmd(heap, gcthreads=2 if workers == 1 else None, deque=deque) + ["-workers", str(workers), "-metadir", os.path.join(d, "meta-%s" % cfg.replace(".cfg", "")),
                             "-config", cfg] + (extra or []) + [module]
     t0 = time.time()
     try:
